@@ -138,7 +138,7 @@ def run_l0(ctx):
         for t in EDGE:
             k = judge_l0(ctx, t)
             ctx.case(("edge", t), True, sample={"url": t})
-    n = ctx.pick(60000, 2000000) // ctx.nshards
+    n = ctx.pick(60000, 8000000) // ctx.nshards
     for i in range(n):
         text, parts = gen_mutation(rng)
         kind = judge_l0(ctx, text, parts)
